@@ -20,7 +20,7 @@ tech={
  'C15':'generated const items with inputs drawn at generation time vs black_box run-time twins vs model (differential: const evaluator / run time / model)',
  'C16':'differential testing across build profiles: identical seeded case streams in dev (checks on, opt 0), release (checks off, opt 3) [thorough: + checked]; digests and model compared, totality under catch_unwind',
  'C17':'generated declarations with r/w/rw/none fields and rw twins; presence probes must compile, absence probes must fail to compile (rustc diagnostics per probe line, under cargo check and cargo check --tests), probes outside the declaring module; public surface of generated structs listed from the tokenised macro expansion and compared with the access letters',
- 'C18':'generated documented declarations compiled in a #![no_std] #![deny(missing_docs)] crate; nightly macro expansion tokenised and scanned for unsafe / std / alloc',
+ 'C18':'generated documented declarations (doc comments in seven forms, up to 128 fields) compiled in a #![no_std] #![deny(missing_docs)] crate that forbids unexpected_cfgs; nightly macro expansion tokenised and scanned for unsafe / std / alloc',
  'C19':'proptest over raw values and histories of generated debug declarations; oracle = derive(Debug) twin struct filled from model values ({:?} and {:#?}); generated debug declarations with a write-only / accessor-less / array field must not compile',
 }
 checks=[]
